@@ -245,7 +245,7 @@ class Builder:
                                                 'spec': spec})
                 return {'num': self.trid}
             return {'inline': spec}
-        spec, lab = d(gen.tr_spec(rot_classes=rot_classes, allow_abbrev=False,
+        spec, lab = d(gen.tr_spec(rot_classes=rot_classes, allow_abbrev=True,
                                   allow_13=False,
                                   translation_only_weight=(10 if how == 'inline3' else 1)))
         spec['o'] = [float(v) * 0.4 * scale / 4.0 for v in spec['o']]
